@@ -166,7 +166,7 @@ def gen_spec(rng):
         return spec
     strategy = rng.choice(["plain", "plain", "page_by", "page_by_new", "page_by_new_first", "subline",
                            "subline_page_by", "nested"])
-    spec = G.gen_table_spec(rng, nrows=(1, 14), ncols=(1, 12), strategy=strategy, attrs_p=0.0, rich=0.0,
+    spec = G.gen_table_spec(rng, nrows=(0, 14), ncols=(1, 12), strategy=strategy, attrs_p=0.0, rich=0.0,
                             nrow=rng.choice([None, 5, 9, 20]), col_rel_width=rng.random() < 0.7,
                             header=rng.choice(["default", "explicit", "explicit", "explicit_w", "tworow", "none"]))
     nc = len(spec["df"]["cols"])
